@@ -66,6 +66,7 @@ func RTNativeX(pkg string, doc, bolt bool) string {
 	sb.WriteString(`import (
 	"fmt"
 	"math"
+	"os"
 	"runtime"
 	"sync"
 	"time"
@@ -104,6 +105,14 @@ func verifAssertFailed(label string) { panic(verifAssertFail{label}) }
 var verifRng uint64 = 0x9E3779B97F4A7C15
 var verifRngMu sync.Mutex
 
+func init() {
+	// every stress run draws different pauses
+	verifRng ^= uint64(time.Now().UnixNano())*0x2545F4914F6CDD1D ^ uint64(os.Getpid())<<32
+	if verifRng == 0 {
+		verifRng = 1
+	}
+}
+
 func verifYield() {
 	verifRngMu.Lock()
 	verifRng ^= verifRng << 13
@@ -111,6 +120,10 @@ func verifYield() {
 	verifRng ^= verifRng << 17
 	r := verifRng
 	verifRngMu.Unlock()
+	if r>>40%16 == 0 { // heavy tail: now and then a goroutine stalls long enough for others to run to completion
+		time.Sleep(time.Duration(5+r>>12%25) * time.Millisecond)
+		return
+	}
 	switch r % 4 {
 	case 0:
 		runtime.Gosched()
